@@ -10,8 +10,8 @@ from ..core import Ctx
 THEOREMS = ["Visitor.prune_meaning", "Visitor.escape_iff", "Visitor.nested", "Visitor.balanced",
             "Visitor.main_trace", "Visitor.enter_once", "Visitor.order_visit", "Visitor.order_depart",
             "Visitor.builder_stack_empty", "Visitor.dispatch_same_family", "Visitor.dispatch_unpaired_counterexample",
-            "Visitor.general_walk_partial", "Visitor.balanced_general_partial",
-            "Visitor.departure_prune_unbalanced_counterexample", "Visitor.departure_prune_escape_counterexample",
+            "Visitor.general_walk", "Visitor.balanced_general", "Visitor.escape_general", "Visitor.general_walk_plain",
+            "Visitor.new_departure_prune_balanced", "Visitor.old_departure_prune_unbalanced", "Visitor.old_departure_prune_escape",
             "Visitor.inline_visit_unbalanced_counterexample", "Visitor.inline_visit_order_counterexample"]
 RULE = ("exhaustive: every ordered tree of <=4 nodes (9 shapes) x every assignment of the 5 pruning actions x every "
         "subset of the 4 timings (one extension each) run through the real pydoctor.visitor.Visitor.walkabout/walk and "
